@@ -240,6 +240,8 @@ func handleError(err error, w http.ResponseWriter, r *http.Request) {
 		statusCode = 400
 	case authentication.ErrMalformedTrailer:
 		statusCode = 400
+	case authentication.ErrIncompleteBody:
+		statusCode = 400
 	case storage.ErrInvalidRange:
 		statusCode = 416
 	case storage.ErrNoSuchBucket:
